@@ -83,12 +83,11 @@ def nice_model(c, extra=(), seed=0, budget_ms=4000):
     for i, att in enumerate(attempts):
         s.push()
         try:
-            s.set("timeout", budget_ms if i < len(attempts) - 1 else max(old, budget_ms))
             s.add(*extra)
             if att:
                 s.add(*att)
             t0 = time.time()
-            r = s.check()
+            r = core.timed_check(s, budget_ms if i < len(attempts) - 1 else max(old, budget_ms))
             c.solver_s += time.time() - t0
             c.queries += 1
             if r == z3.sat:
@@ -229,11 +228,10 @@ def _final_check(c, neg, timeout_ms, quick_only=False):
     """Decide pc ∧ neg.  A fresh (non-incremental) solver first — it lets z3 preprocess and pick nlsat for
     polynomial arithmetic; then the incremental solver, then an explicit nlsat pipeline.  unknown is never success."""
     def fresh(solver, tag, tmo):
-        solver.set("timeout", tmo)
         solver.add(*c.pc)
         solver.add(neg)
         t0 = time.time()
-        r = solver.check()
+        r = core.timed_check(solver, tmo)
         c.solver_s += time.time() - t0
         c.queries += 1
         if r == z3.sat:
@@ -241,7 +239,12 @@ def _final_check(c, neg, timeout_ms, quick_only=False):
         if r == z3.unsat:
             return "unsat", None, tag
         return None
-    # Weaker hypotheses first: if the obligation contains no uninterpreted function, try to prove it from the path
+    res = fresh(z3.Solver(), "z3-fresh", max(timeout_ms // 3, 2000) if not quick_only else timeout_ms)
+    if res:
+        return res
+    if quick_only:
+        return "unknown", None, "z3"
+    # The full query was inconclusive.  Weaker hypotheses: if the obligation contains no uninterpreted function, try to prove it from the path
     # conjuncts that contain none either (dropping hypotheses is sound for a proof; a `sat` here is NOT a verdict).
     if not _has_uf(neg):
         slim = [p for p in c.pc if not _has_uf(p)]
@@ -262,24 +265,18 @@ def _final_check(c, neg, timeout_ms, quick_only=False):
                     rest.append((p, cs))
             pool = rest
         slim = keep
-        for hyps, tag, tmo in (([], "z3-fresh-no-hypotheses", 3000), (slim, "z3-fresh-without-UF-hypotheses", max(timeout_ms // 3, 2000))):
+        for hyps, tag, tmo in (([], "z3-fresh-no-hypotheses", max(timeout_ms // 3, 3000)), (slim, "z3-fresh-without-UF-hypotheses", max(timeout_ms // 3, 2000))):
             if len(hyps) >= len(c.pc):
                 continue
             s0 = z3.Solver()
-            s0.set("timeout", tmo)
             s0.add(*hyps)
             s0.add(neg)
             t0 = time.time()
-            r0 = s0.check()
+            r0 = core.timed_check(s0, tmo)
             c.solver_s += time.time() - t0
             c.queries += 1
             if r0 == z3.unsat:
                 return "unsat", None, tag
-    res = fresh(z3.Solver(), "z3-fresh", max(timeout_ms // 3, 2000) if not quick_only else timeout_ms)
-    if res:
-        return res
-    if quick_only:
-        return "unknown", None, "z3"
     r, m = c.check(neg)
     if r != "unknown":
         return r, m, "z3-incremental"
